@@ -816,6 +816,25 @@ func runWorkerLoop(c *Check, tier string, idx int, scratch string, deadline time
 			site = firstRepoFrame(out)
 		}
 		cs, _ := json.Marshal(map[string]any{"journal": jc, "shard": cur})
+		// a worker may end itself on a violation it cannot survive (see ExitWithViolation): key and case are in its output
+		if i := strings.LastIndex(out, exitKeyMarker); i >= 0 {
+			key := out[i+len(exitKeyMarker):]
+			if j := strings.IndexByte(key, '\n'); j >= 0 {
+				key = key[:j]
+			}
+			var raw json.RawMessage = cs
+			if k := strings.LastIndex(out, exitCaseMarker); k >= 0 {
+				line := out[k+len(exitCaseMarker):]
+				if j := strings.IndexByte(line, '\n'); j >= 0 {
+					line = line[:j]
+				}
+				if json.Valid([]byte(line)) {
+					raw = json.RawMessage(line)
+				}
+			}
+			died(Violation{Key: key, Msg: fmt.Sprintf("worker ended itself while running shard %q, case %q: %s", cur, jc, trunc(tailOf(out, 1500), 1500)), Case: raw})
+			continue
+		}
 		died(Violation{Key: fmt.Sprintf("%s:%s@%s", c.ID, kind, site),
 			Msg:  fmt.Sprintf("worker %v while running shard %q, journalled case %q; output tail:\n%s", err, cur, jc, trunc(tailOf(out, 3000), 3000)),
 			Case: cs})
@@ -880,4 +899,18 @@ func repoFrames(st []byte) string {
 		}
 	}
 	return b.String()
+}
+
+const (
+	exitKeyMarker  = "VERIF-EXIT-VIOLATION-KEY "
+	exitCaseMarker = "VERIF-EXIT-VIOLATION-CASE "
+)
+
+// ExitWithViolation ends a worker process on a violation the worker cannot survive (for example an
+// allocation running far beyond its budget): the parent reports it with this key and case, and
+// continues the remaining shards with a new worker.
+func ExitWithViolation(key string, cs any, msg string) {
+	b, _ := json.Marshal(cs)
+	fmt.Fprintf(os.Stderr, "\n%s\n%s%s\n%s%s\n", msg, exitCaseMarker, b, exitKeyMarker, key)
+	os.Exit(5)
 }
